@@ -88,6 +88,14 @@ def sub_case(name, sc, seed, maxc, exclude, variant):
     kw = zoo.model_kwargs(entry, np.nan, (0, 1), seed=seed, variant=variant)
     rows_mode = isinstance(cand, np.ndarray) and cand.ndim == 2
     n = len(cand) if rows_mode else len(X)
+    # non-constant sample weights handed through the wrapper (half of the cases, where the wrapped query takes them):
+    # the weight of a sample must reach the wrapped strategy together with that sample
+    import inspect as _inspect
+
+    w_caller = None
+    if seed % 2 == 1 and "sample_weight" in _inspect.signature(inner.query).parameters and "reg" not in kw:
+        w_caller = 1.0 + np.arange(len(X), dtype=float)
+        kw["sample_weight"] = w_caller.copy()
     if cand is None:
         cands = [i + 1 for i in range(len(X)) if np.isnan(y[i])]
     elif rows_mode:
@@ -112,6 +120,7 @@ def sub_case(name, sc, seed, maxc, exclude, variant):
                 q, u = wr.query(X.copy(), y.copy(), candidates=None if cand is None else np.array(cand),
                                 batch_size=conc["batch_size"], return_utilities=True, **kw)
         q, u = np.asarray(q), np.asarray(u, dtype=float)
+        wok = True
         # the same call without utilities (the default of query) on a fresh wrapper / wrapped strategy of the same
         # seed: the returned indices must be the same ones, in the caller's index space
         wr0 = SubSamplingWrapper(entry.make(seed, np.nan, (0, 1)), max_candidates=maxc, exclude_non_subsample=exclude,
@@ -121,7 +130,8 @@ def sub_case(name, sc, seed, maxc, exclude, variant):
             with np.errstate(all="ignore"):
                 q0 = wr0.query(X.copy(), y.copy(), candidates=None if cand is None else np.array(cand),
                                batch_size=conc["batch_size"], return_utilities=False,
-                               **zoo.model_kwargs(entry, np.nan, (0, 1), seed=seed, variant=variant))
+                               **dict(zoo.model_kwargs(entry, np.nan, (0, 1), seed=seed, variant=variant),
+                                      **({} if w_caller is None else {"sample_weight": w_caller.copy()})))
         q0 = [int(j) + 1 for j in np.asarray(q0).ravel()]
         ikw, ires = spy.calls[-1]
         iq, iu = np.asarray(ires[0]), np.asarray(ires[1], dtype=float)
@@ -149,12 +159,15 @@ def sub_case(name, sc, seed, maxc, exclude, variant):
                 full = np.full(n, np.nan)
                 full[to_caller] = r
                 irows.append(full)
+            if w_caller is not None and ikw.get("sample_weight") is not None:
+                iw = np.asarray(ikw["sample_weight"], dtype=float)
+                wok = bool(len(iw) == len(to_caller) and all(iw[j] == w_caller[to_caller[j]] for j in range(len(iw))))
         if u.ndim != 2 or u.shape[1] != n:
             events = [{"ev": "Malformed", "shape": list(u.shape)}]
         else:
             allr = ranks_with_inf(list(irows) + [r for r in u])
             k = len(irows)
-            events = [{"ev": "Inner", "S": sorted(S), "q": iq_c, "rows": allr[:k], "rank": []},
+            events = [{"ev": "Inner", "S": sorted(S), "q": iq_c, "rows": allr[:k], "rank": [], "wok": wok},
                       {"ev": "OuterSub", "q": [int(j) + 1 for j in q], "rows": allr[k:], "qplain": q0}]
     except Exception as ex:
         events = [{"ev": "Raised", "exc": "%s: %s" % (type(ex).__name__, str(ex)[:160])}]
